@@ -738,7 +738,7 @@ Section HistoryPre.
     destruct (fold_clear_good _ s s1 Hg Hs1) as [Hg1 _].
     pose proof (fold_clear_pre _ s s1 Hp Hs1) as Hp1.
     change (fold_left (gd_step (F := F))
-              (combine params (map (fun h => match grad_of s h with None => true | Some _ => false end) params))
+              (combine params (frozen_flags s [] params))
               (Some (s1, sgd_zip O lr (concat pv) (concat pg), [])) = Some (s2, buf3, out)) in Hfold.
     eapply fold_gd_pre; eassumption.
   Qed.
